@@ -229,10 +229,15 @@ pub fn check_stream(bytes: &[u8], expect: Option<&Expect>, rng: &mut Rng) -> Out
         }
     }
 
-    // C02
+    // C02.  A result obtained with verify=false is only handed to recompress_deflate_stream
+    // if verify=true accepted the stream as well: a decoder fed corrections that do not fit
+    // can run away, and when verify=true refuses, the two flags already disagree (below).
     for (i, r) in results.iter().enumerate() {
         if let Some((plain, corr, size)) = r {
             let verify = i == 1;
+            if !verify && results[1].is_none() {
+                continue;
+            }
             if *size > bytes.len() {
                 o.viol.push(Viol { prop: "C02", sig: "compressed_size>len".into(), why: format!("compressed_size {} exceeds the input length {}", size, bytes.len()) });
                 continue;
@@ -267,8 +272,8 @@ pub fn check_stream(bytes: &[u8], expect: Option<&Expect>, rng: &mut Rng) -> Out
                 o.viol.push(Viol { prop: "C02", sig: "verify-flag-changes-result".into(), why: "verify=false and verify=true return different results".into() });
             }
         }
-        (Some(_), None) if !o.viol.iter().any(|v| v.prop == "C02" || (v.prop == "C05")) => {
-            o.viol.push(Viol { prop: "C02", sig: "verify-flag-changes-verdict".into(), why: "verify=false accepts, verify=true rejects, yet reconstruction succeeded".into() });
+        (Some(_), None) => {
+            o.viol.push(Viol { prop: "C02", sig: "verify-flag-changes-verdict".into(), why: "verify=false accepts what verify=true refuses (accepted without verification, the stream would be reconstructed differently or not at all)".into() });
         }
         (None, Some(_)) if o.lib != "panic" => {
             o.viol.push(Viol { prop: "C02", sig: "verify-flag-changes-verdict".into(), why: "verify=true accepts, verify=false rejects".into() });
@@ -501,6 +506,12 @@ pub fn record(args: &Args) -> i32 {
     let threads = args.num("threads", 8) as usize;
     let mut rng = Rng::new(seed ^ 0xD3F1);
     let mut streams = driver_streams(&mut rng, n, maxlen, mutants);
+    let sw = args.num("sweeps", 0) as usize;
+    if sw > 0 {
+        for (label, bytes) in gen::sweep_streams(&mut rng, sw, args.num("window", 40) as usize) {
+            streams.push(Driven { label, bytes });
+        }
+    }
     if args.get("samples").is_some() {
         let s = sample_streams();
         for d in &s {
@@ -622,5 +633,36 @@ pub fn exhaustive_short(args: &Args) -> i32 {
     }
     let g = counts.lock().unwrap();
     writeln!(out.lock().unwrap(), "{}", json!({"kind":"summary","strings":total,"evaluations":g.0,"accepted":g.1,"panics":g.2})).unwrap();
+    0
+}
+
+/// generated behaviours -> one hex line per stream
+pub fn pack(args: &Args) -> i32 {
+    let f = std::fs::File::open(args.req("in")).unwrap();
+    let mut out = std::io::BufWriter::new(std::fs::File::create(args.req("out")).unwrap());
+    for line in std::io::BufReader::new(f).lines() {
+        let line = line.unwrap();
+        if line.trim().is_empty() {
+            continue;
+        }
+        let case: Value = serde_json::from_str(&line).unwrap();
+        writeln!(out, "{}", hex(&pack_fields(&case["fields"]))).unwrap();
+    }
+    0
+}
+
+/// debugging aid: parameters and the last tokens of streams from the sweep driver
+pub fn info(args: &Args) -> i32 {
+    quiet_panics();
+    let mut rng = Rng::new(args.num("seed", 1));
+    let v = gen::sweep_streams(&mut rng, args.num("sweeps", 8) as usize, args.num("window", 2) as usize);
+    for (label, s) in v.iter() {
+        if !label.ends_with("cut0") {
+            continue;
+        }
+        let t = verif::analyse_trace(s);
+        let last: Vec<String> = t.parse.as_ref().map(|p| p.blocks.last().map(|b| b.tokens.iter().rev().take(4).rev().map(|t| format!("{:?}", t)).collect()).unwrap_or_default()).unwrap_or_default();
+        println!("{} params={:?} err={:?} last={:?}", label, t.params, t.error, last);
+    }
     0
 }
